@@ -255,6 +255,18 @@ def find_matches(node, sty=None, skip_tracing=True):
             yield n
 
 
+def enum_matches(node, adt, skip_tracing=True):
+    """`match` expressions written in the source (not loop / ? desugarings) whose scrutinee is (a reference to) `adt`."""
+    out = []
+    for n in walk(node, skip_tracing):
+        if n.get("k") != "match" or not n.get("src", "").startswith("Normal"):
+            continue
+        sty = n.get("sty", "").lstrip("&").replace("mut ", "")
+        if sty == adt or sty.startswith(adt + "<"):
+            out.append(n)
+    return out
+
+
 # ---- K1: pattern matrices ---------------------------------------------------
 
 YES, NO, MAYBE = "yes", "no", "maybe"
